@@ -306,7 +306,9 @@ def explore_c08(ctx, res, replay_ops=None):
     res.rule = ("SURs against the real rating server over Diameter/TLS; stored unit-cost strings: integers incl. 0 "
                 "and > 2^32, decimal fractions, signs, spaces, empty and non-numeric text (thorough: random strings of "
                 "length <= 3 over 0-9.+-a); sub-types reserve/debit/AoC/release/unknown; amounts at boundaries of "
-                "2^16/2^31/2^32; non-trivial = answered, distinct by (cost string, sub-type, consumed, quota)")
+                "2^16/2^31/2^32, the optional ConsumedUnits / MonetaryQuota AVP present or absent; CHF side (chf stream, mode costs): "
+                "stored tariffs of 1..20 digits with a decimal point anywhere (Value-Digits across 2^32/2^53/2^63/int64, Exponent 0..19); "
+                "non-trivial = answered, distinct by (cost string, sub-type, consumed, quota)")
 
 
 PROPS["C08"] = dict(lean=["ChfVerif.Props.C08"], explore=explore_c08,
@@ -519,8 +521,11 @@ def explore_c01(ctx, res, replay_ops=None):
     res.rule = ("histories over the real gin router + processor + rating/account servers (Diameter/TLS, in-memory store): "
                 "1-2 subscribers x 2 rating groups x 1-2 sessions per scenario, unit costs 1,2,3,7,1000, balances 0..100000, "
                 "requested 0..250, used around the last grant (incl. over-reporting), FINAL and other triggers, releases, "
-                "external credits + recharge notifications; judged: every operation inside the quantifier (opOKb, evaluated "
-                "by the Lean driver); non-trivial = operation that moves money; distinct = distinct operation lines")
+                "external credits + recharge notifications; containers of one usage mixing all four quota-management indicators; "
+                "outages of the account-balance / rating server for a few requests (dial error; thorough: also a peer that never "
+                "answers); judged: every operation inside the quantifier (opOKb, evaluated "
+                "by the Lean driver) against credited - rated, and every operation made during an outage (opOKx) against "
+                "credited - booked (C01_outage_step); non-trivial = operation that moves money; distinct = distinct operation lines")
 
 
 PROPS["C01"] = dict(lean=["ChfVerif.Props.C01"], explore=explore_c01,
@@ -722,7 +727,10 @@ def explore_c06(ctx, res, replay_ops=None):
     res.rule = ("same generator as C01 (balances from 0 to several quotas, unit costs 1..1000, used volumes around the "
                 "last grant, 8% offline containers, FINAL triggers, recharges); an operation is judged when the whole history since "
                 "the last reset is inside the quantifier (opOKb) and ledger-compliant (opCompliantB, both evaluated by the "
-                "Lean driver); non-trivial = update whose grant had to be limited (money short); distinct op lines")
+                "Lean driver) - an operation during an outage stays inside when everything it reports is still booked in full; "
+                "plus histories of a consumer that stays within its grants by construction on accounts that run short, with outages "
+                "(generator mode comply); the grant is judged on the CHF's own balance+reservation and on an independent ledger "
+                "(credited - unit cost x reported usage); non-trivial = update whose grant had to be limited (money short); distinct op lines")
 
 
 PROPS["C06"] = dict(lean=["ChfVerif.Props.C06"], explore=explore_c06,
@@ -1181,7 +1189,9 @@ def explore_c17(ctx, res, replay_ops=None):
                 "values of its AVP type, each optional grouped AVP present/absent) through Marshal -> Serialize -> ReadMessage -> "
                 "Unmarshal, compared field by field; (b) basic AVP data encodings compared with the Lean codec model; (c) every tag name "
                 "looked up by name and back by code; (d) request histories against the real rating and account-balance servers with optional "
-                "AVPs present/absent (Subscription-Id, Requested-Action), compared with the Lean server models; non-trivial = message round trip")
+                "AVPs present/absent (Subscription-Id, Requested-Action), compared with the Lean server models; (e) the same randomly filled "
+                "requests and answers through the CHF's real client functions (internal/rating, internal/abmf) and a scripted peer, both "
+                "directions compared field by field; non-trivial = message round trip")
 
 
 PROPS["C17"] = dict(lean=["ChfVerif.Props.C17"], explore=explore_c17, gen=[gen_table("diameter", "Diameter.lean")],
@@ -1620,7 +1630,9 @@ def _explore_peer(ctx, res, replay_ops, which):
                 "the 5 s timeout (6.5 s) or lost (40 s), followed at once / after 3 s / with a 2.5 s answer by further updates; random "
                 "patterns of prompt / 0.8 s / 2.5 s / late / lost answers, each answer delivered once, twice or three times (a relay in front "
                 "of the real servers repeats it); runs of timed-out requests followed by a count of go-diameter watchdog goroutines and of "
-                "answer handlers that have not returned. Every update must complete within 14 s and act only on the "
+                "answer handlers that have not returned; final reports (debit-mode settlement) whose account-balance answer is slow, late "
+                "or lost, followed by the next reservation. Every update must complete within 14 s, must not return while a request it made "
+                "is unanswered before any time-out, and act only on the "
                 "answer to its own account-balance request (identified by the amount: each request tops up by a distinct sum of powers "
                 "of two); observations are compared with the client machines of Model/DiamClient.lean (who answered, elapsed time within "
                 "%d ms, open connections)" % PEER_TOL_MS)
